@@ -121,6 +121,16 @@ theorem mailbox_header_wf (nameLen : Nat) (ms : List (Option Bytes × Bytes))
     HeaderEnc.scan .norm (MailboxEnc.headerValue nameLen ms) = some .norm :=
   MailboxEnc.mailboxHeader_wf nameLen ms hm
 
+/-- **A list of bare addresses is folded within the limits, however long.** For every list of addresses (printable ASCII
+    without spaces, each at most 75 octets, the first one fitting after the field name) every line of the header that
+    `Mailboxes::encode` writes — the field name included — is at most 78 octets long. Before `fix:` 4d26e13 the whole
+    list was one line (sixty recipients: 1492 octets). This is the one line-length bound that is a theorem; the others
+    (values through `HeaderValue::new`, names in mailbox headers) are checked on real output and have recorded findings. -/
+theorem address_list_folded (nameLen : Nat) (as : List Bytes) (ha : ∀ a ∈ as, MailboxEnc.AddrOk a)
+    (hfirst : ∀ a, as.head? = some a → nameLen + 2 + a.length ≤ 76) (hname : nameLen + 2 ≤ 76) :
+    HeaderReader.linesOkGo true 78 (nameLen + 2) (MailboxEnc.headerValue nameLen (as.map fun a => (none, a)) ++ [13, 10]) = true :=
+  MailboxEnc.address_list_lines nameLen as ha hfirst hname
+
 /-- non-vacuity, and the repaired defect (`fix:` 4d26e13) on the model: sixty recipients are folded, no line exceeds 78 -/
 theorem sixty_recipients_folded :
     let ms : List (Option Bytes × Bytes) := (List.range 60).map fun i => (none, str s!"recipient{i}@example.org")
